@@ -42,6 +42,7 @@ import (
 	"github.com/aergoio/aergo/v2/state"
 	"github.com/aergoio/aergo/v2/state/statedb"
 	"github.com/aergoio/aergo/v2/types"
+	"github.com/aergoio/aergo/v2/types/dbkey"
 	"github.com/aergoio/aergo/v2/types/message"
 	"github.com/aergoio/aergo/v2/zz_verif/vh"
 	"github.com/btcsuite/btcd/btcec/v2"
@@ -336,58 +337,842 @@ func must(b []byte, err error) []byte {
 	return b
 }
 
-func main() {
-	zerolog.SetGlobalLevel(zerolog.Disabled)
-	run := vh.Start("c02", "probe")
-	dpos.VerifC02DecorateVotingReward()
-	w := newWorld(run, run.Rng, config.AllEnabledHardforkConfig, "p")
-	t0 := time.Now()
-	P := w.newNode("P")
-	V := w.newNode("V")
-	fmt.Println("nodes", time.Since(t0))
-	gen, _ := P.cs.GetBestBlock()
-	bi := types.NewBlockHeaderInfoFromPrevBlock(gen, w.ts, w.hf)
+// ================================================================ Part A1: VoteResult.buildVoteList
+
+type tallyEntry struct {
+	cand []byte
+	amt  *big.Int
+}
+
+func showVotes(vs []*types.Vote) string {
+	if len(vs) == 0 {
+		return "-"
+	}
+	out := make([]string, len(vs))
+	for i, v := range vs {
+		out[i] = hx(v.Candidate) + ":" + new(big.Int).SetBytes(v.Amount).String()
+	}
+	return strings.Join(out, " ")
+}
+
+// tieShaped: two entries with equal amounts whose Less-keys coincide (BP ids equal from byte 7 on; numbers equal as
+// integers) - the input shape of class C15-less-tie-candidate-prefix.
+func tieShaped(es []tallyEntry, ex bool) bool {
+	for i := range es {
+		for j := i + 1; j < len(es); j++ {
+			if es[i].amt.Cmp(es[j].amt) != 0 {
+				continue
+			}
+			a, b := es[i].cand, es[j].cand
+			if !ex && len(a) == 39 && len(b) == 39 {
+				a, b = a[7:], b[7:]
+			}
+			if new(big.Int).SetBytes(a).Cmp(new(big.Int).SetBytes(b)) == 0 {
+				return true
+			}
+		}
+	}
+	return false
+}
+
+func partVoteSort(run *vh.Run) {
+	rng := run.Rng.Fork()
+	n := run.Pick(400, 4000)
+	reps := run.Pick(6, 25)
+	tails := [][]byte{fill(0x11), fill(0x22), fill(0x33), append([]byte{0}, fill(0x44)[1:]...), append([]byte{0, 0}, fill(0x55)[2:]...)}
+	nums := []string{"1", "3", "5", "05", "005", "13", "23", "100", "50000000000", "050000000000", "60000000000",
+		"10000000000000000000000", "20000000000000000000000", "9", "90"}
+	for c := 0; c < n; c++ {
+		ex := rng.Chance(2, 5)
+		k := rng.Intn(8)
+		if c < 3 {
+			k = c // empty, singleton, pair
+		}
+		seen := map[string]bool{}
+		var es []tallyEntry
+		for len(es) < k {
+			var cand []byte
+			if ex {
+				cand = []byte(nums[rng.Intn(len(nums))])
+			} else {
+				t := tails[rng.Intn(len(tails))]
+				if rng.Chance(1, 4) {
+					t = rng.Bytes(32)
+				}
+				cand = peerID(2+byte(rng.Intn(2)), t)
+			}
+			if seen[string(cand)] {
+				continue
+			}
+			seen[string(cand)] = true
+			es = append(es, tallyEntry{cand, big.NewInt(int64(1 + rng.Intn(3)))})
+		}
+		if rng.Chance(1, 3) { // all amounts equal: the order rests on the candidate comparison alone
+			for i := range es {
+				es[i].amt = big.NewInt(7)
+			}
+		}
+		if rng.Chance(1, 6) && len(es) > 0 {
+			es[0].amt = big.NewInt(0)
+		}
+		sort.Slice(es, func(i, j int) bool { return bytes.Compare(es[i].cand, es[j].cand) < 0 })
+		keys := make([]string, len(es))
+		amts := make([]*big.Int, len(es))
+		words := []string{"votesort"}
+		for i, e := range es {
+			if ex {
+				keys[i] = string(e.cand)
+			} else {
+				keys[i] = base58.Encode(e.cand)
+			}
+			amts[i] = e.amt
+			words = append(words, hx(e.cand)+":"+e.amt.String())
+		}
+		op := strings.Join(words, " ")
+		run.Pending(op)
+		first := ""
+		for r := 0; r < reps; r++ {
+			out, panicked := vh.Guard(func() string { return showVotes(system.VerifC02BuildVoteList(keys, amts, ex)) })
+			if panicked {
+				run.Fail("buildVoteList panics: "+out, map[string]interface{}{"op": op})
+				first = out
+				break
+			}
+			if r == 0 {
+				first = out
+			} else if out != first {
+				class := ""
+				if tieShaped(es, ex) {
+					class = "C15-less-tie-candidate-prefix"
+				}
+				run.FailKnown("VoteResult.buildVoteList returns different vote lists for one tally (map iteration order leaks into the ranking bytes)",
+					class, map[string]interface{}{"op": op, "run0": first, fmt.Sprintf("run%d", r): out})
+				break
+			}
+		}
+		run.Count(fmt.Sprintf("votesort ex=%v n=%d", ex, min(len(es), 4)))
+		if tieShaped(es, ex) {
+			run.Count("votesort tie-shaped")
+		}
+		run.Op(op, first, len(es) >= 2)
+	}
+}
+
+// ================================================================ Part A2: vpr.apply
+
+type vprReplica struct {
+	h   *system.VerifC02Vpr
+	sdb *statedb.StateDB
+	scs *statedb.ContractState
+}
+
+func newVprReplica(dir string) *vprReplica {
+	csdb := state.NewChainStateDB()
+	if err := csdb.Init("memorydb", dir, nil, false, nil); err != nil {
+		panic(err)
+	}
+	sdb := csdb.GetStateDB()
+	scs, err := statedb.GetSystemAccountState(sdb)
+	if err != nil {
+		panic(err)
+	}
+	return &vprReplica{h: system.VerifC02NewVpr(), sdb: sdb, scs: scs}
+}
+
+func (r *vprReplica) show() string {
+	var ps []string
+	powers := r.h.VerifC02Powers()
+	ids := make([]types.AccountID, 0, len(powers))
+	for id := range powers {
+		ids = append(ids, id)
+	}
+	sort.Slice(ids, func(i, j int) bool { return bytes.Compare(ids[i][:], ids[j][:]) > 0 })
+	for _, id := range ids {
+		ps = append(ps, hex.EncodeToString(id[:])+":"+powers[id].String())
+	}
+	bk := r.h.VerifC02Buckets()
+	var idx []int
+	for i, l := range bk {
+		if len(l) > 0 {
+			idx = append(idx, int(i))
+		}
+	}
+	sort.Ints(idx)
+	var bs []string
+	for _, i := range idx {
+		var xs []string
+		for _, e := range bk[uint8(i)] {
+			xs = append(xs, hex.EncodeToString(e[0])+":"+new(big.Int).SetBytes(e[1]).String())
+		}
+		bs = append(bs, fmt.Sprintf("%d=[%s]", i, strings.Join(xs, ",")))
+	}
+	return fmt.Sprintf("total=%s powers=[%s] buckets={%s} pending=%d", r.h.VerifC02Total().String(), strings.Join(ps, ","),
+		strings.Join(bs, " "), r.h.VerifC02PendingChanges())
+}
+
+// rows: the persisted bucket rows as stored by store.write
+func (r *vprReplica) rows() string {
+	var b strings.Builder
+	for i := 0; i < 71; i++ {
+		d, _ := r.scs.GetData(dbkey.SystemVpr(uint8(i)))
+		if len(d) > 0 {
+			fmt.Fprintf(&b, "%d:%s ", i, hx(d))
+		}
+	}
+	return b.String()
+}
+
+func partVprApply(run *vh.Run) {
+	rng := run.Rng.Fork()
+	nsess := run.Pick(60, 600)
+	reps := run.Pick(5, 20)
+	// ids whose first byte puts several of them into one bucket (idx = id[0] % 71)
+	firsts := []byte{0, 71, 142, 1, 72, 5, 0, 71}
+	for s := 0; s < nsess; s++ {
+		var ids []types.AccountID
+		for i := 0; i < 8; i++ {
+			var id types.AccountID
+			copy(id[:], rng.Bytes(32))
+			id[0] = firsts[i]
+			ids = append(ids, id)
+		}
+		reps_ := make([]*vprReplica, reps)
+		for i := range reps_ {
+			reps_[i] = newVprReplica(filepath.Join(run.Out, "vpr", fmt.Sprintf("%d-%d", s, i)))
+		}
+		run.Op("vnew", "ok", false)
+		power := map[types.AccountID]int64{} // applied power, to keep sub within it
+		pend := map[types.AccountID]int64{}
+		var script []string
+		rounds := 2 + rng.Intn(5)
+		for rd := 0; rd < rounds; rd++ {
+			nops := 1 + rng.Intn(7)
+			for o := 0; o < nops; o++ {
+				id := ids[rng.Intn(len(ids))]
+				a := int64(1 + rng.Intn(9))
+				addr := append([]byte{2}, id[:]...)
+				if rng.Chance(2, 5) && power[id]+pend[id] > 0 {
+					if a > power[id]+pend[id] || rng.Chance(1, 3) {
+						a = power[id] + pend[id] // leave: power back to zero
+					}
+					op := fmt.Sprintf("vsub %s %d", hex.EncodeToString(id[:]), a)
+					script = append(script, op)
+					for _, r := range reps_ {
+						r.h.VerifC02Sub(id, addr, big.NewInt(a))
+					}
+					if power[id] > 0 { // vpr.sub ignores a voter that is not (yet) in the rank
+						pend[id] -= a
+					}
+					run.Op(op, "ok", false)
+					run.Count("vpr sub")
+				} else {
+					if rng.Chance(1, 12) {
+						a = 0
+					}
+					op := fmt.Sprintf("vadd %s %d", hex.EncodeToString(id[:]), a)
+					script = append(script, op)
+					for _, r := range reps_ {
+						r.h.VerifC02Add(id, addr, big.NewInt(a))
+					}
+					pend[id] += a
+					run.Op(op, "ok", false)
+					run.Count("vpr add")
+				}
+			}
+			script = append(script, "vapply")
+			run.Pending("vapply")
+			var first, firstRows string
+			for i, r := range reps_ {
+				out, panicked := vh.Guard(func() string {
+					if _, err := r.h.VerifC02Apply(r.scs); err != nil {
+						return "error: " + err.Error()
+					}
+					return r.show()
+				})
+				rows := r.rows()
+				if panicked {
+					run.Fail("vpr.apply panics: "+out, map[string]interface{}{"ops": script})
+				}
+				if i == 0 {
+					first, firstRows = out, rows
+				} else if out != first || rows != firstRows {
+					run.Fail("vpr.apply leaves different ranks / bucket rows for one set of changes (map iteration order leaks into state)",
+						map[string]interface{}{"ops": script, "replica0": first + " rows " + firstRows, fmt.Sprintf("replica%d", i): out + " rows " + rows})
+					break
+				}
+			}
+			nch := 0
+			for id, d := range pend {
+				if d != 0 {
+					nch++
+				}
+				power[id] += d
+				delete(pend, id)
+			}
+			run.Count(fmt.Sprintf("vpr apply changes=%d", min(nch, 5)))
+			run.Op("vapply", first, nch >= 2)
+		}
+	}
+	os.RemoveAll(filepath.Join(run.Out, "vpr"))
+}
+
+// ================================================================ Part B: producer path vs validator path
+
+type contractInfo struct {
+	addr []byte
+	keys map[string]bool
+}
+
+type nameInfo struct {
+	name  string
+	owner int
+}
+
+type session struct {
+	w         *world
+	run       *vh.Run
+	rng       *vh.Rng
+	P, V      *node
+	warp      bool
+	parent    *types.Block
+	no        types.BlockNo
+	contracts []*contractInfo
+	names     []nameInfo
+	staked    map[int]bool
+	history   []string // per block: compact description (for the replay)
+	reps      int
+}
+
+var daoValues = map[string][]string{
+	"BPCOUNT":    {"3", "5", "23"},
+	"STAKINGMIN": {"10000000000000000000000", "20000000000000000000000"},
+	"GASPRICE":   {"50000000000", "60000000000", "1000000000"},
+	"NAMEPRICE":  {"1000000000000000000", "2000000000000000000"},
+}
+var daoIDs = []string{"BPCOUNT", "STAKINGMIN", "GASPRICE", "NAMEPRICE"}
+
+func (s *session) stateOf(addr []byte) *types.State {
+	st, err := s.P.cs.SDB().GetStateDB().GetAccountState(types.ToAccountID(addr))
+	if err != nil || st == nil {
+		return &types.State{}
+	}
+	return st
+}
+
+type cand struct {
+	tx   types.Transaction
+	kind string
+}
+
+func script(rng *vh.Rng, ci *contractInfo, accts []*acct, others []*contractInfo) string {
+	sc := map[string]interface{}{"fee": fmt.Sprint(rng.Intn(3) * 1000)}
+	var sets []map[string]string
+	for i, n := 0, rng.Intn(5); i < n; i++ {
+		k := fmt.Sprintf("k%d", rng.Intn(8))
+		sets = append(sets, map[string]string{"k": k, "v": fmt.Sprint(rng.Intn(100))})
+	}
+	if len(sets) > 0 {
+		sc["sets"] = sets
+	}
+	var dels []string
+	for i, n := 0, rng.Intn(3); i < n; i++ {
+		dels = append(dels, fmt.Sprintf("k%d", rng.Intn(8)))
+	}
+	if len(dels) > 0 {
+		sc["dels"] = dels
+	}
+	if rng.Chance(1, 4) {
+		var xs []map[string]string
+		for i, n := 0, 1+rng.Intn(2); i < n; i++ {
+			to := accts[rng.Intn(len(accts))].addr
+			if len(others) > 0 && rng.Chance(1, 3) {
+				to = others[rng.Intn(len(others))].addr
+			}
+			xs = append(xs, map[string]string{"to": hex.EncodeToString(to), "amt": fmt.Sprint(rng.Intn(5))})
+		}
+		sc["xfers"] = xs
+	}
+	if rng.Chance(1, 5) {
+		sc["events"] = 1 + rng.Intn(2)
+	}
+	if rng.Chance(1, 4) {
+		sc["ret"] = fmt.Sprintf("r%d", rng.Intn(10))
+	}
+	switch rng.Intn(12) {
+	case 0:
+		sc["err"] = "vm" // runtime error: the tx stays in the block with an ERROR receipt
+	case 1:
+		sc["err"] = "system" // system error: the tx fails, the producer must skip it
+	}
+	b, _ := json.Marshal(sc)
+	return string(b)
+}
+
+// candidates generates the tx candidates of the next block (mostly valid; the invalid ones must be skipped)
+func (s *session) candidates(bi *types.BlockHeaderInfo) ([]cand, []string) {
+	rng, w := s.rng, s.w
 	cid := bi.ChainIdHash()
-	a0, a1 := w.accts[0], w.accts[1]
-	var cands []types.Transaction
-	cands = append(cands, w.sign(a0, &types.TxBody{Nonce: 1, Recipient: a1.addr, Amount: amt(5, 18), GasPrice: amt(50, 9), Type: types.TxType_TRANSFER, ChainIdHash: cid}))
-	cands = append(cands, w.sign(a0, &types.TxBody{Nonce: 5, Recipient: a1.addr, Amount: amt(5, 18), GasPrice: amt(50, 9), Type: types.TxType_TRANSFER, ChainIdHash: cid}))
-	cands = append(cands, w.sign(a1, &types.TxBody{Nonce: 1, Recipient: []byte(types.AergoSystem), Amount: amt(20000, 18), Type: types.TxType_GOVERNANCE, ChainIdHash: cid, Payload: []byte(`{"Name":"v1stake"}`)}))
-	cands = append(cands, w.sign(a1, &types.TxBody{Nonce: 2, Recipient: []byte(types.AergoSystem), Type: types.TxType_GOVERNANCE, ChainIdHash: cid,
-		Payload: []byte(`{"Name":"v1voteBP","Args":["` + base58.Encode(w.cands[3]) + `","` + base58.Encode(w.cands[4]) + `"]}`)}))
-	cands = append(cands, w.sign(a0, &types.TxBody{Nonce: 2, Amount: nil, GasLimit: 0, GasPrice: amt(50, 9), Type: types.TxType_DEPLOY, ChainIdHash: cid,
-		Payload: []byte(`{"fee":"1000","sets":[{"k":"a","v":"1"},{"k":"b","v":"2"}]}`)}))
+	n := rng.Intn(14)
+	if rng.Chance(1, 12) {
+		n = 0
+	}
+	next := map[int]uint64{}
+	nonce := func(i int) uint64 {
+		if _, ok := next[i]; !ok {
+			next[i] = s.stateOf(w.accts[i].addr).GetNonce() + 1
+		}
+		v := next[i]
+		next[i]++
+		return v
+	}
+	gp := system.GetGasPrice().Bytes()
+	// what the producer's state says about every account's stake and votes (to aim at transactions that succeed)
+	scs, err := statedb.GetSystemAccountState(s.P.cs.SDB().GetStateDB())
+	if err != nil {
+		panic(err)
+	}
+	type gov struct {
+		staked *big.Int
+		when   uint64
+		voted  map[string]bool
+	}
+	govs := make([]gov, len(w.accts))
+	for i, a := range w.accts {
+		st, _ := system.GetStaking(scs, a.addr)
+		g := gov{staked: st.GetAmountBigInt(), when: st.GetWhen(), voted: map[string]bool{}}
+		for _, issue := range append([]string{types.OpvoteBP.ID()}, daoIDs...) {
+			if v, err := system.GetVote(scs, a.addr, []byte(issue)); err == nil && v.Amount != nil {
+				g.voted[issue] = true
+			}
+		}
+		govs[i] = g
+	}
+	touched := map[int]bool{} // one governance action per account and block (the delays are counted in blocks)
+	rested := func(i int) bool { return govs[i].when+86400 <= uint64(bi.No) }
+	pick := func(ok func(i int) bool) int {
+		if rng.Chance(5, 6) {
+			var el []int
+			for i := range w.accts {
+				if !touched[i] && ok(i) {
+					el = append(el, i)
+				}
+			}
+			if len(el) > 0 {
+				return el[rng.Intn(len(el))]
+			}
+		}
+		return rng.Intn(len(w.accts))
+	}
+	var out []cand
+	for tries := 0; len(out) < n && tries < 200; tries++ {
+		i := rng.Intn(len(w.accts))
+		body := &types.TxBody{ChainIdHash: cid, GasPrice: gp}
+		kind := ""
+		switch k := rng.Intn(100); {
+		case k < 14:
+			kind = "transfer"
+			body.Type, body.Recipient, body.Amount = types.TxType_TRANSFER, w.accts[rng.Intn(len(w.accts))].addr, amt(int64(rng.Intn(10)), 18)
+			if len(s.names) > 0 && rng.Chance(1, 4) {
+				body.Recipient = []byte(s.names[rng.Intn(len(s.names))].name)
+				kind = "transfer-to-name"
+			}
+		case k < 17:
+			kind = "bad-balance"
+			body.Type, body.Recipient, body.Amount = types.TxType_TRANSFER, w.accts[rng.Intn(len(w.accts))].addr, amt(2_000_000, 18)
+		case k < 20:
+			kind = "bad-nonce"
+			body.Type, body.Recipient, body.Amount = types.TxType_TRANSFER, w.accts[rng.Intn(len(w.accts))].addr, amt(1, 18)
+			body.Nonce = s.stateOf(w.accts[i].addr).GetNonce() + uint64(rng.Intn(2))*7 // too low (equal to the state nonce) or a gap
+			if body.Nonce == 0 {
+				body.Nonce = 99
+			}
+		case k < 26:
+			kind = "deploy"
+			body.Type = types.TxType_DEPLOY
+			body.Payload = []byte(script(rng, nil, w.accts, s.contracts))
+		case k < 48:
+			if len(s.contracts) == 0 {
+				continue
+			}
+			kind = "call"
+			c := s.contracts[rng.Intn(len(s.contracts))]
+			body.Type, body.Recipient = types.TxType_CALL, c.addr
+			body.Payload = []byte(script(rng, c, w.accts, s.contracts))
+			if rng.Chance(1, 3) {
+				body.Amount = amt(int64(rng.Intn(4)), 18)
+			}
+			if strings.Contains(string(body.Payload), `"err":"system"`) {
+				kind = "call-syserr"
+			} else if strings.Contains(string(body.Payload), `"err":"vm"`) {
+				kind = "call-vmerr"
+			}
+		case k < 58:
+			kind = "stake"
+			i = pick(func(i int) bool { return govs[i].staked.Sign() == 0 || rested(i) })
+			body.Type, body.Recipient = types.TxType_GOVERNANCE, []byte(types.AergoSystem)
+			body.Amount = amt(int64(10000*(1+rng.Intn(2))), 18) // equal stakes are common: tied tallies
+			body.Payload = []byte(`{"Name":"v1stake"}`)
+		case k < 72:
+			kind = "voteBP"
+			i = pick(func(i int) bool { return govs[i].staked.Sign() > 0 && (!govs[i].voted[types.OpvoteBP.ID()] || rested(i)) })
+			body.Type, body.Recipient = types.TxType_GOVERNANCE, []byte(types.AergoSystem)
+			var args []string
+			seen := map[int]bool{}
+			for j, m := 0, 1+rng.Intn(3); j < m; j++ {
+				c := rng.Intn(len(w.cands))
+				if rng.Chance(1, 2) {
+					c = 3 + rng.Intn(4) // the pairs sharing bytes 7..
+				}
+				if !seen[c] {
+					seen[c] = true
+					args = append(args, `"`+base58.Encode(w.cands[c])+`"`)
+				}
+			}
+			body.Payload = []byte(`{"Name":"v1voteBP","Args":[` + strings.Join(args, ",") + `]}`)
+		case k < 86:
+			kind = "voteDAO"
+			id := daoIDs[rng.Intn(len(daoIDs))]
+			i = pick(func(i int) bool { return govs[i].staked.Sign() > 0 && (!govs[i].voted[id] || rested(i)) })
+			body.Type, body.Recipient = types.TxType_GOVERNANCE, []byte(types.AergoSystem)
+			vals := daoValues[id]
+			v := vals[len(vals)-1] // most voters agree: the 2/3 threshold is reached and the parameter changes
+			if rng.Chance(1, 3) {
+				v = vals[rng.Intn(len(vals))]
+			}
+			body.Payload = []byte(`{"Name":"v1voteDAO","Args":["` + id + `","` + v + `"]}`)
+		case k < 91:
+			kind = "unstake"
+			i = pick(func(i int) bool { return govs[i].staked.Sign() > 0 && rested(i) })
+			body.Type, body.Recipient = types.TxType_GOVERNANCE, []byte(types.AergoSystem)
+			body.Amount = govs[i].staked.Bytes()
+			if rng.Chance(1, 3) {
+				body.Amount = amt(10000, 18)
+			}
+			body.Payload = []byte(`{"Name":"v1unstake"}`)
+		case k < 96:
+			kind = "createName"
+			body.Type, body.Recipient = types.TxType_GOVERNANCE, []byte(types.AergoName)
+			body.Amount = system.GetNamePrice().Bytes()
+			nm := fmt.Sprintf("name%08d", rng.Intn(8))
+			body.Payload = []byte(`{"Name":"v1createName","Args":["` + nm + `"]}`)
+		default:
+			if len(s.names) == 0 {
+				continue
+			}
+			kind = "updateName"
+			nm := s.names[rng.Intn(len(s.names))]
+			if rng.Chance(4, 5) {
+				i = nm.owner
+			}
+			body.Type, body.Recipient = types.TxType_GOVERNANCE, []byte(types.AergoName)
+			body.Amount = system.GetNamePrice().Bytes()
+			body.Payload = []byte(`{"Name":"v1updateName","Args":["` + nm.name + `","` +
+				types.EncodeAddress(w.accts[rng.Intn(len(w.accts))].addr) + `"]}`)
+		}
+		if body.Type == types.TxType_GOVERNANCE && string(body.Recipient) == types.AergoSystem {
+			touched[i] = true
+		}
+		a := w.accts[i]
+		if body.Nonce == 0 {
+			body.Nonce = nonce(i)
+		}
+		out = append(out, cand{w.sign(a, body), kind})
+	}
+	stops := make([]string, len(out))
+	if len(out) > 0 && rng.Chance(1, 8) {
+		stops[rng.Intn(len(out))] = []string{"tmo", "vmtmo"}[rng.Intn(2)]
+	}
+	return out, stops
+}
+
+type execResult struct {
+	root, rroot string
+	rbytes      string
+	err         string
+}
+
+func (r execResult) String() string {
+	return fmt.Sprintf("err=%q root=%s receiptsRoot=%s receipts=%s", r.err, r.root, r.rroot, r.rbytes)
+}
+
+func receiptsBytes(rs *types.Receipts) string {
+	if rs == nil {
+		return "nil"
+	}
+	var parts []string
+	for _, r := range rs.Get() {
+		b, err := r.MarshalMerkleBinaryV2()
+		if err != nil {
+			return "marshal error: " + err.Error()
+		}
+		b1, _ := r.MarshalMerkleBinary()
+		parts = append(parts, hx(b)+"/"+hx(b1)+"/"+r.Status)
+	}
+	st, err := rs.MarshalBinary()
+	if err != nil {
+		return "marshal error: " + err.Error()
+	}
+	return strings.Join(parts, ",") + "|" + hx(st)
+}
+
+// tieInState: the BP tally of the producer's state holds two candidates with equal votes that agree from byte 7 on
+func (s *session) tieInState() bool {
+	scs, err := statedb.GetSystemAccountState(s.P.cs.SDB().GetStateDB())
+	if err != nil {
+		return false
+	}
+	vl, err := system.GetVoteResult(scs, []byte(types.OpvoteBP.ID()), 1000)
+	if err != nil || vl == nil {
+		return false
+	}
+	var es []tallyEntry
+	for _, v := range vl.Votes {
+		es = append(es, tallyEntry{v.Candidate, new(big.Int).SetBytes(v.Amount)})
+	}
+	return tieShaped(es, false)
+}
+
+func (s *session) fail(what string, extra map[string]interface{}) {
+	class := ""
+	if s.tieInState() {
+		class = "C15-less-tie-candidate-prefix"
+	}
+	rep := map[string]interface{}{"session": s.w.label, "warp": s.warp, "hardfork": fmt.Sprintf("%+v", *s.w.hf), "blocks": s.history}
+	for k, v := range extra {
+		rep[k] = v
+	}
+	s.run.FailKnown(what, class, rep)
+}
+
+// step produces one block and checks it; false = the session cannot go on
+func (s *session) step() bool {
+	w, run := s.w, s.run
+	var no types.BlockNo // 0 = parent+1
+	if s.warp && s.rng.Chance(1, 2) {
+		s.no += 86400 + types.BlockNo(s.rng.Intn(3))
+	} else {
+		s.no++
+	}
+	if s.warp {
+		no = s.no
+	}
+	vno := s.parent.BlockNo() + 1
+	if no != 0 {
+		vno = no
+	}
+	bi := &types.BlockHeaderInfo{No: vno, ChainId: types.MakeChainId(s.parent.GetHeader().GetChainID(), w.hf.Version(vno)), ForkVersion: w.hf.Version(vno)}
+	var cands []cand
+	var stops []string
+	s.P.on(func() { cands, stops = s.candidates(bi) })
+	txs := make([]types.Transaction, len(cands))
+	kinds := make([]string, len(cands))
+	for i, c := range cands {
+		txs[i], kinds[i] = c.tx, c.kind
+	}
 	var p *produced
-	P.on(func() { p = P.produce(w, gen, 0, cands, make([]string, len(cands))) })
-	fmt.Println("produce", p.err, p.outcomes, p.picked)
+	out, panicked := vh.Guard(func() string {
+		s.P.on(func() { p = s.P.produce(w, s.parent, no, txs, stops) })
+		return ""
+	})
+	desc := fmt.Sprintf("#%d v%d [%s]", vno, bi.ForkVersion, strings.Join(kinds, " "))
+	if panicked {
+		s.history = append(s.history, desc)
+		s.fail("the producer path panics: "+out, nil)
+		return false
+	}
 	if p.err != nil {
-		run.Finish()
+		s.history = append(s.history, desc+" producer error "+p.err.Error())
+		s.fail("the producer path failed to build a block: "+p.err.Error(), nil)
+		return false
+	}
+	s.history = append(s.history, desc+" outcomes "+strings.Join(p.outcomes, ","))
+	for i, o := range p.outcomes {
+		run.Count("tx " + kinds[i] + " " + o)
+	}
+	run.Count(fmt.Sprintf("block v%d txs=%d", bi.ForkVersion, min(len(p.picked), 6)/2*2))
+	if len(p.blk.GetHeader().GetConsensus()) > 0 {
+		run.Count("block pays a voting reward (winner picked from the voting-power rank)")
+	}
+	if gpNow := p.bs.GasPrice.String(); gpNow != "50000000000" {
+		run.Count("block executed under a voted gas price " + gpNow)
+	}
+	ref := execResult{root: hx(p.blk.GetHeader().GetBlocksRootHash()), rroot: hx(p.blk.GetHeader().GetReceiptsRootHash()), rbytes: receiptsBytes(p.bs.Receipts())}
+	if hx(p.bs.Receipts().MerkleRoot()) != ref.rroot {
+		s.fail("the producer's header receipts root is not the root of its receipts", nil)
+	}
+
+	// --- the validator path, k times per GOMAXPROCS setting, on a freshly booted node each time
+	parentRoot := s.parent.GetHeader().GetBlocksRootHash()
+	old := runtime.GOMAXPROCS(0)
+	ok := true
+	verdict := "accept"
+	for _, gmp := range []int{1, 4, 16} {
+		runtime.GOMAXPROCS(gmp)
+		for r := 0; r < s.reps && ok; r++ {
+			var got execResult
+			out, panicked := vh.Guard(func() string {
+				s.V.bootFresh(parentRoot, len(w.bps))
+				root, rc, err := chain.VerifC02VerifyExec(s.V.cs, p.blk)
+				got = execResult{root: hx(root), rbytes: receiptsBytes(rc)}
+				if rc != nil {
+					got.rroot = hx(rc.MerkleRoot())
+				}
+				if err != nil {
+					got.err = err.Error()
+				}
+				return ""
+			})
+			run.Eval("", false)
+			if panicked {
+				got.err = out
+			}
+			if got != ref {
+				verdict = "reject"
+				what := "a fresh node re-executing a produced block from the parent state computes different roots/receipts than the producer"
+				if got.err != "" {
+					what = "the validation path of a fresh node rejects a block the production path built: " + got.err
+				}
+				s.fail(what, map[string]interface{}{"gomaxprocs": gmp, "repetition": r, "producer": ref.String(), "validator": got.String(),
+					"candidates": kinds, "outcomes": p.outcomes})
+				ok = false
+			}
+		}
+	}
+	runtime.GOMAXPROCS(old)
+	toks := strings.Join(p.outcomes, " ")
+	picked := "-"
+	if len(p.picked) > 0 {
+		ss := make([]string, len(p.picked))
+		for i, x := range p.picked {
+			ss[i] = fmt.Sprint(x)
+		}
+		picked = strings.Join(ss, " ")
+	}
+	run.Op(strings.TrimSpace("gather "+toks), picked+" "+verdict, len(p.picked) > 0)
+	if !ok {
+		return false
+	}
+
+	// --- connect: the producer commits its own block state; the long-running second node validates and commits
+	var errP, errV error
+	out, panicked = vh.Guard(func() string {
+		s.P.on(func() {
+			if s.warp {
+				errP = chain.VerifC02CommitProduced(s.P.cs, p.blk, p.bs)
+			} else {
+				errP = chain.VerifC02AddBlock(s.P.cs, p.blk, p.bs, "")
+			}
+			system.CommitParams(errP == nil)
+		})
+		s.V.on(func() {
+			if s.warp {
+				errV = chain.VerifC02ExecCommit(s.V.cs, p.blk)
+			} else {
+				errV = chain.VerifC02AddBlock(s.V.cs, p.blk, nil, "peer")
+			}
+			system.CommitParams(errV == nil)
+		})
+		return ""
+	})
+	if panicked || errP != nil || errV != nil {
+		s.fail(fmt.Sprintf("connecting a produced block fails: producer=%v second node=%v %s", errP, errV, out), nil)
+		return false
+	}
+	rp, rv := hx(s.P.cs.SDB().GetRoot()), hx(s.V.cs.SDB().GetRoot())
+	if rp != ref.root || rv != ref.root {
+		s.fail("after connecting the block the nodes' state roots differ from the header", map[string]interface{}{"header": ref.root, "producer": rp, "second": rv})
+		return false
+	}
+	if !s.warp {
+		r1, e1 := chain.VerifC02GetReceipts(s.P.cs, p.blk.BlockHash())
+		r2, e2 := chain.VerifC02GetReceipts(s.V.cs, p.blk.BlockHash())
+		if len(p.picked) > 0 && (e1 != nil || e2 != nil || receiptsBytes(r1) != receiptsBytes(r2)) {
+			s.fail("stored receipts differ between the producer and the second node", map[string]interface{}{"producer": receiptsBytes(r1), "second": receiptsBytes(r2)})
+			return false
+		}
+	}
+	run.Eval(ref.root+ref.rroot, len(p.picked) > 0)
+
+	// bookkeeping for the generator
+	for _, i := range p.picked {
+		body := txs[i].GetBody()
+		switch kinds[i] {
+		case "deploy":
+			s.contracts = append(s.contracts, &contractInfo{addr: contract.CreateContractID(body.Account, body.Nonce)})
+		case "createName":
+			var ci types.CallInfo
+			json.Unmarshal(body.Payload, &ci)
+			owner := 0
+			for j, a := range w.accts {
+				if bytes.Equal(a.addr, body.Account) {
+					owner = j
+				}
+			}
+			s.names = append(s.names, nameInfo{ci.Args[0].(string), owner})
+		}
+	}
+	s.parent = p.blk
+	return true
+}
+
+func runSession(run *vh.Run, label string, hf *config.HardforkConfig, warp bool, nblocks int) {
+	w := newWorld(run, run.Rng.Fork(), hf, label)
+	s := &session{w: w, run: run, rng: w.rng, warp: warp, staked: map[int]bool{}, reps: run.Pick(3, 25)}
+	s.P = w.newNode("P")
+	s.V = w.newNode("V")
+	defer s.P.close()
+	defer s.V.close()
+	s.parent, _ = s.P.cs.GetBestBlock()
+	if hx(s.parent.BlockHash()) != hx(must2(s.V.cs.GetBestBlock()).BlockHash()) {
+		s.fail("two nodes booted from one genesis disagree on the genesis block", nil)
 		return
 	}
-	fmt.Println("root", hx(p.blk.GetHeader().GetBlocksRootHash()), "rr", hx(p.blk.GetHeader().GetReceiptsRootHash()))
-	for i := 0; i < 3; i++ {
-		V.bootFresh(gen.GetHeader().GetBlocksRootHash(), len(w.bps))
-		root, rc, err := chain.VerifC02VerifyExec(V.cs, p.blk)
-		fmt.Println("verify", err, hx(root), hx(rc.MerkleRoot()))
+	for b := 0; b < nblocks; b++ {
+		if !s.step() {
+			return
+		}
 	}
-	var err error
-	P.on(func() { err = chain.VerifC02AddBlock(P.cs, p.blk, p.bs, "") })
-	fmt.Println("P connect", err)
-	V.on(func() { err = chain.VerifC02AddBlock(V.cs, p.blk, nil, "peer") })
-	fmt.Println("V add", err)
-	bb, _ := V.cs.GetBestBlock()
-	fmt.Println("V best", bb.BlockNo(), hx(V.cs.SDB().GetRoot()))
-	r1, e1 := chain.VerifC02GetReceipts(P.cs, p.blk.BlockHash())
-	r2, e2 := chain.VerifC02GetReceipts(V.cs, p.blk.BlockHash())
-	fmt.Println(e1, e2)
-	for i, r := range r1.Get() {
-		fmt.Println(i, r.Status, r.Ret, hx(r.FeeUsed), string(must(r.MarshalMerkleBinaryV2())) == string(must(r2.Get()[i].MarshalMerkleBinaryV2())))
+	run.Count("session " + label + " completed")
+}
+
+func main() {
+	zerolog.SetGlobalLevel(zerolog.Disabled)
+	run := vh.Start("c02", "nontrivial = a tally of >= 2 candidates / >= 2 pending power changes / a block with >= 1 tx; distinct by (operation, answer) or by block roots")
+	dpos.VerifC02DecorateVotingReward()
+
+	far := types.BlockNo(1) << 40
+	forks := []struct {
+		name string
+		hf   config.HardforkConfig
+	}{
+		{"all", *config.AllEnabledHardforkConfig},
+		{"stag", config.HardforkConfig{V2: 3, V3: 6, V4: 9, V5: 12}},
+		{"v4", config.HardforkConfig{V2: 0, V3: 0, V4: 0, V5: far}},
+		{"v3", config.HardforkConfig{V2: 0, V3: 0, V4: far, V5: far}},
+		{"v2", config.HardforkConfig{V2: 0, V3: far, V4: far, V5: far}},
+		{"v0", config.HardforkConfig{V2: far, V3: far, V4: far, V5: far}},
 	}
-	_ = json.Marshal
-	_ = sort.Strings
-	_ = strings.Join
-	_ = runtime.GOMAXPROCS
-	P.close()
-	V.close()
+	nblocks := run.Pick(16, 40)
+	rounds := run.Pick(1, 3)
+	for rd := 0; rd < rounds; rd++ {
+		for fi, f := range forks {
+			hf := f.hf
+			runSession(run, fmt.Sprintf("%s-chain-%d", f.name, rd), &hf, false, nblocks)
+			hf2 := f.hf
+			runSession(run, fmt.Sprintf("%s-warp-%d", f.name, rd), &hf2, true, nblocks)
+			if rd == 0 && fi == 0 {
+				partVprApply(run)
+				partVoteSort(run)
+			}
+		}
+	}
+	os.RemoveAll(filepath.Join(run.Out, "nodes"))
 	run.Finish()
+}
+
+func must2[T any](v T, err error) T {
+	if err != nil {
+		panic(err)
+	}
+	return v
 }
